@@ -85,6 +85,8 @@ void vs_op_end(void);
 // engine-private sections: no scheduling points inside
 void vs_rt_enter(void);
 void vs_rt_exit(void);
+// full fence for the calling virtual thread (TSO mode): harness operation boundary
+void vs_drain(void);
 
 // progress / quiescence (runtime harnesses)
 void vs_progress(void);
